@@ -4,7 +4,7 @@
 # applied; any VIOLATION is an over-strict oracle.  Works from a frozen copy of /verif (git HEAD)
 # so that edits in the working tree do not interfere.  Nothing in /repo or /verif is touched.
 budget=$1; shift
-S=/tmp/vsnap; rm -rf $S; mkdir -p $S
+S=/tmp/vsnap.$$; rm -rf $S; mkdir -p $S
 git -C /verif archive HEAD | tar -x -C $S
 for patch in "$@"; do
   name=$(basename $patch .diff)
